@@ -187,6 +187,25 @@ def _builtin(ex, st, c, callee, args, fn):
             e = _struct_eq(_val(ex, st, args[0]), _val(ex, st, args[1]))
             if e is not None:
                 return e if m.group(2) == 'eq' else z3.Not(e)
+        elif m.group(1).rstrip().endswith('>') and 'Option<' in m.group(1):
+            # Option<T> for a T whose (derived or hand-written) PartialEq::eq is in the dump: None == None, Some(x) == Some(y) iff x == y
+            a, b = _val(ex, st, args[0]), _val(ex, st, args[1])
+            tname = inner.strip().split('::')[-1]
+            cands = ex.prog.resolve('<%s as PartialEq>::eq' % tname, 2) if re.fullmatch(r'\w+', tname) else []
+            if isinstance(a, Enum) and isinstance(b, Enum) and len(cands) == 1:
+                da, db = a.disc(), b.disc()
+                if 'Some' in a.p and 'Some' in b.p:
+                    s2 = st.fork()
+                    s2.mem[('clo', 'opt_eq_a')] = a.p['Some'].f[0]; s2.mem[('clo', 'opt_eq_b')] = b.p['Some'].f[0]
+                    outs = ex.inline(cands[0], [Ref('clo', 'opt_eq_a'), Ref('clo', 'opt_eq_b')], s2)
+                    if outs and all(isinstance(o[1], z3.ExprRef) and z3.is_bool(o[1]) for o in outs):
+                        base = len(st.pc)
+                        inner_eq = z3.Or([z3.And(z3.And(o[0].pc[base:]) if len(o[0].pc) > base else z3.BoolVal(True), o[1]) for o in outs])
+                        e = z3.And(da == db, z3.Implies(da == 1, inner_eq))
+                        return e if m.group(2) == 'eq' else z3.Not(e)
+                else:
+                    e = z3.And(da == db, da == 0)
+                    return e if m.group(2) == 'eq' else z3.Not(e)
     m = re.match(r'^<\(((?:[iu](?:8|16|32|64|128|size))(?:, (?:[iu](?:8|16|32|64|128|size)))*),?\) as (PartialOrd|PartialEq)>::(lt|le|gt|ge|eq|ne)$', c)
     if m:
         # tuples of integers: lexicographic order
@@ -219,7 +238,7 @@ def _builtin(ex, st, c, callee, args, fn):
     m = re.search(r'(?:^|::)f32::<impl f32>::(\w+)$', c) or re.match(r'^f32::(\w+)$', c)
     if m and m.group(1) in ('ceil', 'floor', 'round', 'trunc', 'abs') and len(args) == 1:
         return ex.float_round_fn(args[0], m.group(1))
-    m = re.search(r'(?:^|::)f64::<impl f64>::(\w+)$', c) or re.match(r'^f64::(\w+)$', c)
+    m = re.search(r'(?:^|::)f(?:64|32)::<impl f(?:64|32)>::(\w+)$', c) or re.match(r'^f(?:64|32)::(\w+)$', c)
     if m:
         k = m.group(1)
         if k in ('ceil', 'floor', 'round', 'trunc', 'abs'):
@@ -530,6 +549,14 @@ def _builtin(ex, st, c, callee, args, fn):
             v = _val(ex, st, args[0])
             if isinstance(v, Struct) and len(v.f) == 1:
                 return v.f[0]
+    if re.search(r'(const_ptr|mut_ptr)::<impl \*(const|mut) [^>]*>::is_null$', c) and len(args) == 1:
+        # a raw pointer the caller handed in: null only when the harness says so (Opaque('nullptr'))
+        from .values import Ptr as _Ptr
+        a0 = args[0]
+        if isinstance(a0, Opaque):
+            return z3.BoolVal(a0.tag == 'nullptr')
+        if isinstance(a0, (Ref, _Ptr)):
+            return z3.BoolVal(False)
     # pure Duration arithmetic / comparisons (exact integer nanoseconds)
     m = (re.search(r'(^|::)Duration::(saturating_sub|saturating_add|checked_add|checked_sub|subsec_micros|subsec_millis|is_zero|abs_diff)$', c)
          or re.search(r'^<(?:std::time::)?Duration as (?:Ord|PartialOrd|PartialEq)>::(max|min|clamp|gt|ge|lt|le|eq|ne)$', c)
